@@ -102,22 +102,23 @@ let () =
         let d = parse_dfa () in
         if end_safe d then print_endline "ok"
         else (match end_witness d with Some q -> Printf.printf "unsafe %d\n" (int_of_nat q) | None -> print_endline "unsafe ?")
-    | "bbisim" ->
+    | "bbisim" | "bbisim0" as task ->
         let nfp = next_int () in let fp = List.init nfp (fun _ -> n_of_int (next_int ())) in
         let nft = next_int () in let ft = List.init nft (fun _ -> n_of_int (next_int ())) in
         let d1 = parse_dfa () in let d2 = parse_dfa () in
         let show_rel (x : rel) =
           Printf.sprintf "%s/%d/%d/%d" (match x.r_mode with EBoth -> "B" | ERet _ -> "R") (int_of_nat x.r_q1) (int_of_nat x.r_q2) (List.length x.r_pend) in
-        (match dfa_slack_run fp ft d1 d2 with
+        (match dfa_slack_run_on fp ft (task = "bbisim") d1 d2 with
          | Inl true -> print_endline "ok"
          | Inl false -> print_endline "checkfail"
          | Inr f ->
              Printf.printf "mismatch %d %d %d %s" (int_of_nat f.bf_elem.r_q1) (int_of_nat f.bf_elem.r_q2) (int_of_n f.bf_sym) (show_rel f.bf_elem);
              List.iter (fun ((c, p), s) -> Printf.printf " %s<%s@%d" (show_rel c) (show_rel p) (int_of_n s)) f.bf_parents;
              print_newline ())
-    | "bisim" ->
+    | "bisim" | "bisim0" as task ->
+        (* bisim0: parsers without an end function - the certificate covers the 256 byte values only *)
         let d1 = parse_dfa () in let d2 = parse_dfa () in
-        (match dfa_bisim_run d1 d2 with
+        (match dfa_bisim_run_on (task = "bisim") d1 d2 with
          | Inl true -> print_endline "ok"
          | Inl false -> print_endline "checkfail"
          | Inr f ->
